@@ -165,7 +165,16 @@ func c06(run *core.Run, replay string) {
 	}
 	core.ParallelDo(len(cases), 0, func(i int) {
 		c := cases[i]
-		k, d, ok := runIoCase(c)
+		if core.Hangs() >= 3 {
+			return
+		}
+		g, returned := guarded(func() kd { k, d, ok := runIoCase(c); return kd{k, d, ok} })
+		if !returned {
+			run.Eval(1)
+			run.Violate("C06 hang mode="+c.Mode, fmt.Sprintf("[%s] chunk=%d pattern=%s sizes=%v: the call never returned (60 s, then 180 s)", c.R.Name, c.Chunk, c.Pattern, c.Sizes), c)
+			return
+		}
+		k, d, ok := g.k, g.d, g.ok
 		if !ok {
 			run.Count("recipe_build_failed", 1)
 			return
